@@ -169,7 +169,8 @@ def inject_faults(ch, script, g, ended, netlistable):
             else:
                 offender = ch.pick(hier, "offender")
                 pos = ch.rint(0, seams.DEFAULT_NPASSES, "pos")
-            block.append(["fault", "boundary", pos, offender, 0, label])
+            # half of these passes rewrite the offender before they fail (dirty), wherever they stand
+            block.append(["fault", "boundary", pos, offender, 1 if ch.chance(1, 2) else 0, label])
         elif kind == "mid":
             # a rewriting pass that has something to rewrite in this hierarchy, if there is one
             have = []
